@@ -63,7 +63,7 @@ impl Check for C01 {
         // parent's content length lands on 126..128 / 16382..16384
         let mut doc = gen::gen_doc(&mut rng, &spec, &o);
         if rng.chance(1, 6) {
-            pad_to_boundary(&mut rng, &spec, &mut doc);
+            gen::pad_to_boundary(&mut rng, &spec, &mut doc);
         }
         let mut ops = Vec::new();
         let po = PresentOpts { full_pct: *rng.pick(&[0u64, 25, 60]), ..Default::default() };
@@ -86,6 +86,11 @@ impl Check for C01 {
         if !wt.all_ok() {
             // the property is about sequences the writer accepts
             st.inc("writer_rejected");
+            return Ok(ExecOk { nontrivial: false });
+        }
+        if wcases::ambiguous_history(&c.spec, &c.ops) {
+            // excluded by the property itself (matters for shrunk cases)
+            st.inc("out_of_scope_ambiguous");
             return Ok(ExecOk { nontrivial: false });
         }
         let expected = wcases::written_tags(&c.ops);
@@ -203,40 +208,3 @@ impl Check for C01 {
     }
 }
 
-/// Pads one known-size master with a Void child so that its content length lands on a size-field
-/// boundary (126..128, 16382..16384), if Void is allowed there.
-fn pad_to_boundary(rng: &mut Rng, spec: &SpecTable, doc: &mut Vec<crate::enc::Node>) {
-    use crate::enc::{encode, Body, Node};
-    if doc.is_empty() {
-        return;
-    }
-    let i = rng.below(doc.len() as u64) as usize;
-    let n = &mut doc[i];
-    if !n.is_master() || n.enc.unknown || !spec.allowed(crate::spec::VOID_ID, &[n.id]) {
-        return;
-    }
-    let cur = encode(std::slice::from_ref(n)).layout.elems[0].size.unwrap_or(0) as usize;
-    let target = *rng.pick(&[126usize, 127, 128, 16382, 16383, 16384]);
-    // a Void element of payload p costs 1 (id) + size width + p
-    if target < cur + 2 {
-        return;
-    }
-    let room = target - cur;
-    let p = if room - 2 < 127 { room - 2 } else if room >= 3 { room - 3 } else { return };
-    let v = Node::leaf(crate::spec::VOID_ID, Val::B(vec![0; p]));
-    if let Body::Master(cs) = &mut n.body {
-        // not directly after an unknown-size child (ambiguous by the property's own exclusion)
-        if cs.last().map(|c| c.is_master() && c.enc.unknown).unwrap_or(false) {
-            return;
-        }
-        cs.push(v);
-    }
-    if !crate::enc::encodable(n) {
-        n.enc.size_w = 0;
-    }
-    if !crate::enc::encodable(n) {
-        if let Body::Master(cs) = &mut n.body {
-            cs.pop();
-        }
-    }
-}
